@@ -11,6 +11,8 @@ CONSTANTS
   CRProg <- T_CR
   Forms = {"fresh", "once"}
   Colls = {"k1", "k2"}
+  LAs <- T_LAs
+  DropOn = TRUE
   QuitOn = TRUE
   QuitDeferred = TRUE
   DefCap = 4
@@ -23,4 +25,5 @@ INVARIANT TypeOK
 INVARIANT Immediate
 INVARIANT WiredOK
 INVARIANT LifeOK
+INVARIANT OptsOK
 CHECK_DEADLOCK FALSE
